@@ -148,11 +148,7 @@ def followTail (terms nulls : List σ) (first : SetMap σ) (A X : σ) :
       if n ∈ terms then (pure (dset X (sadd w n) W, D) : Except Err _)
       else do
         let f ← dgetE n first
-        let W' := dset X (sunion w f) W
-        if n ∈ nulls then do
-          let d ← dgetE X D
-          pure (W', dset X (sadd d n) D)
-        else pure (W', D)
+        pure (dset X (sunion w f) W, D)
     if n ∈ nulls then followTail terms nulls first A X rest (W', D') else .ok (W', D')
 
 /-- `for i, cur_symbol in enumerate(prod_r.production)` -/
@@ -632,5 +628,13 @@ def Parser.tokens (P : Parser) (raw : List (List Char × List Char)) : List (Tok
 
 def Parser.parse (P : Parser) (raw : List (List Char × List Char)) (fuel : Nat) : Except Err (Tree Sym) :=
   run P.cfg (P.tokens raw) fuel (initStack startSym P.start endSym)
+
+/-- `parse(text, start_symbol_name=s)`: `assert start_symbol_name in self.prods_map`, then the same
+loop from `$START$ -> (s, $END$)`; nothing of the parser object changes -/
+def Parser.parseFrom (P : Parser) (s : List Char) (raw : List (List Char × List Char)) (fuel : Nat) :
+    Except Err (Tree Sym) :=
+  if parseSym s ∈ P.prods.map (·.1) then
+    run P.cfg (P.tokens raw) fuel (initStack startSym (parseSym s) endSym)
+  else .error .assertion
 
 end LL
